@@ -549,6 +549,37 @@ def _mk_shared_contour_direction(lower):
     return body
 
 
+def _mk_ygroups(kind, guards=0, suo=False):
+    """Mesh.makeRegions (real, inside the real BoutMesh constructor): every chain of y-connected regions is a group in connection order; an open chain
+    starts at its lower target, a periodic (core) chain starts at its FIRST region in global y-index order - the place the documentation gives for the
+    origin of poloidal_distance/chi on closed surfaces (the lower X-point in the standard ordering), and the branch cut where BOUT++ applies ShiftAngle"""
+    def body(env):
+        if kind in ("circular_core", "circular_limiter"):
+            eq, mesh, t, sym = build_circular(env, kind == "circular_limiter", guards)
+        else:
+            eq, mesh, t, sym = build(env, kind, guards, suo)
+        env.witness("mesh_built")
+        seen = []
+        for group in mesh.y_groups:
+            ids = [r.myID for r in group]
+            seen += ids
+            for k, r in enumerate(group):
+                env.claim("yGroupIndex_is_the_position_in_the_group", r.yGroupIndex == k)
+            for a, b in zip(group[:-1], group[1:]):
+                env.claim("consecutive_group_members_are_y_connected", a.connections["upper"] == b.myID and b.connections["lower"] == a.myID)
+            first, last = group[0], group[-1]
+            periodic = last.connections["upper"] is not None
+            if not periodic:
+                env.claim("open_chain_starts_at_its_lower_target", first.connections["lower"] is None)
+            else:
+                env.claim("periodic_chain_closes_on_its_first_region", last.connections["upper"] == first.myID)
+                y0 = [zi(mesh.region_indices[r.myID][1].start) for r in group]
+                cond = z3.And(*[y0[0] <= y for y in y0[1:]]) if len(y0) > 1 else z3.BoolVal(True)
+                env.claim("periodic_chain_starts_at_its_first_region_in_y_index_order", SymBool(cond) if env.mode == "sym" else bool(z3.is_true(z3.simplify(cond))))
+        env.claim("every_region_in_exactly_one_group", sorted(seen) == sorted(mesh.regions))
+    return body
+
+
 def _mk(kind, guards, suo=False):
     def body(env):
         if kind in ("circular_core", "circular_limiter"):
@@ -716,6 +747,12 @@ for _lw in (True, False):
                           desc="non-orthogonal grids: the surface direction used for the perpendicular spacing of a contour shared by two radially adjacent regions "
                                "(not the primary separatrix) is the same from both sides, so both regions put the same points on it",
                           bounds="3 contours per region, end points symbolic", max_paths=10))
+for _k, _su in (("lsn", False), ("usn", False), ("cdn", False), ("ldn", False), ("udn", False), ("cdn", True), ("ldn", True), ("udn", True), ("circular_core", False),
+                 ("circular_limiter", False)):
+    OBLIGATIONS.append(Ob("y_groups_%s%s" % (_k, "_start_upper_outer" if _su else ""), _mk_ygroups(_k, 0, _su), tier="quick", family="y groups",
+                          encodes=["hypnotoad.core.mesh:Mesh.makeRegions"],
+                          desc="groups of y-connected regions: connection order, open chains from the lower target, the periodic core chain from its first region in y-index order",
+                          bounds="real constructor on symbolic sizes; %s" % _k, max_paths=400))
 import harness.c01 as _c01  # noqa: E402
 OBLIGATIONS.append(Ob("shared_y_edge_points_coincide", _c01._mk_rzboundary(True), tier="quick", family="getRZBoundary",
                       desc="after getRZBoundary the points on the y-edge shared with the upper neighbour coincide with the neighbour's (both coordinates, ylow and corners)",
